@@ -9,6 +9,7 @@
     InnerLocustDB::wal_flush         → `flushPlan`   (freeze; batch; persist_partitions; compactions; persist_metastore;
                                                        delete_orphaned_partitions; delete_wal_segments — in that order)
     Storage::recover + InnerLocustDB::new (replay, contiguity assert) + Table::restore_tables_from_disk → `recover`
+                                       (`scanFilter`: only `<id>.wal` names are loaded; `<id>..INCOMPLETE` leftovers are removed)
 
   A file system is a finite map path ↦ content (here: a function `Path → Option File`, directory listings are supplied
   separately, in arbitrary order, see `Listing`).  File contents are abstract: a complete WAL segment, a complete partition
@@ -165,7 +166,11 @@ def ingestPlan (m : Mem) (r : Req) : List Phase × Mem :=
 
 /-! ### Flush -/
 
-def tablesOfReqs (rs : List Req) : List Tbl := (rs.flatMap (fun r => r.shares.map (·.table))).eraseDups
+/-- Duplicate-free list of the elements of `l` (first occurrences; same result as `List.eraseDups`, structural so that it can
+    be reasoned about). -/
+def dedup (l : List Tbl) : List Tbl := l.foldr (fun a acc => a :: acc.filter (fun b => b ≠ a)) []
+
+def tablesOfReqs (rs : List Req) : List Tbl := dedup (rs.flatMap (fun r => r.shares.map (·.table)))
 
 /-- `Table::batch` for every table with a non-empty frozen buffer. -/
 def batchParts (ps : List MPart) (pending : List Req) : List MPart :=
@@ -262,20 +267,23 @@ def contiguous : List Nat → Bool
   | a :: b :: rest => b == a + 1 && contiguous (b :: rest)
   | _ => true
 
-/-- Which directory entries the recovery scan considers.  (`Storage::recover` takes every file of `wal/`.) -/
-def scanFilter (_p : Path) : Bool := true
+/-- Which directory entries the recovery scan loads as segments: `path.extension() == "wal"`, i.e. the final names only
+    (since the fix of finding C09-wal-temp; before, `Storage::recover` took every file of `wal/`). -/
+def scanFilter (p : Path) : Bool := !p.tmp
 
-/-- `Storage::recover` followed by the replay loop of `InnerLocustDB::new`.  Returns the rebuilt memory and the paths of
-    the segments it deletes (`id < cursor`), which are effects of the recovery. -/
+/-- `Storage::recover` followed by the replay loop of `InnerLocustDB::new`.  Returns the rebuilt memory and the paths it
+    deletes, which are effects of the recovery: first the stale temp files of `wal/` (`<id>..INCOMPLETE`, left by a store
+    that died between create and rename; never loaded), then the segments with `id < cursor`. -/
 def recover (fs : FS) (ls : List Path) : Except Outcome (Mem × List Path) := do
   let (c, pms) ← loadMeta fs
+  let stale := ls.filter (fun p => !scanFilter p)
   let segs ← (ls.filter scanFilter).mapM (loadSeg fs)
   let obsolete := segs.filter (fun s => s.id < c)
   let live := (segs.filter (fun s => ¬ s.id < c)).mergeSort (fun a b => a.id ≤ b.id)
   let parts ← pms.mapM (loadPart fs)
   if contiguous (live.map (·.id)) then
     .ok ({ cursor := c, nextWal := live.foldl (fun n s => max n (s.id + 1)) c, parts := parts, pending := live.map (·.req) },
-         obsolete.map (·.path))
+         stale ++ obsolete.map (·.path))
   else .error .panic
 
 def recoverPhase (dels : List Path) : Phase := ⟨.recoverGc, dels.map removeTask⟩
